@@ -3,6 +3,7 @@ import IgrisModel.C02.Bisect
 import IgrisModel.C02.Flat
 import IgrisModel.C02.FlatVecLemmas
 import IgrisModel.C02.ExcLemmas
+import IgrisModel.C02.AllocLemmas
 /-!
   C02 — property theorems.
 
@@ -844,5 +845,165 @@ theorem exception_no_leak (portable : Bool) (R : Nat) (ops : List (Op × Option 
 
 example : (runSpecX (fun _ => []) [(.listCtor 0 [1, 2, 3], none), (.insertRange 0 1 (.ext [7, 8, 9]), some 1),
     (.emplaceBack 0 (.own 0), some 0), (.copyAssign 1 0, some 1), (.resize 1 4, some 2)]).isSome = true := by decide
+
+
+/-! ## Round 3 — allocation failure (Alloc.lean) and comparison under the element's own `==` -/
+
+/-- THE ALLOCATION STEP OF changeBuffer.  `oldcapacity = m_capacity; newbuf = allocate(sz); m_capacity = sz;` in
+    this order: when `allocate` throws, the exception leaves changeBuffer with the vector and the ledger exactly
+    as they were (nothing has been written yet). -/
+theorem changeBuffer_alloc_failure_no_effect (af : AF) (idx : Nat) (v : Vec) (sz : Nat) (l : Ledger)
+    {r : Vec × Ledger} (h : changeBufferA false af idx v sz l = .threw r) : r = (v, l) :=
+  changeBufferA_threw h
+
+example : changeBufferA false (.kth 0) 0 (vecOf 3 [1, 2, 3]) 4 {} = .threw (vecOf 3 [1, 2, 3], {}) := rfl
+
+/-- … and when it does not throw, the call is the unarmed changeBuffer -/
+theorem changeBuffer_alloc_granted (af : AF) (idx : Nat) (v : Vec) (sz : Nat) (l : Ledger)
+    (h : af.hit idx sz = false) : changeBufferA false af idx v sz l = .ofOption (changeBuffer v sz l) := by
+  rw [changeBufferA_eq]; simp [h]
+
+/-- A FAILED GROWTH HAS NO EFFECT — for every growing operation (reserve, push_back / emplace_back, insert /
+    emplace, insert_sorted, insert(pos, first, last), resize), whatever failure is armed, in ANY state (no
+    hypothesis): if the call is left by std::bad_alloc, every register is the very record it was — block,
+    m_capacity, m_size, all slots — and constructed - destroyed objects and allocated - freed blocks are unchanged
+    (the temporary `T tmp(args…)` built before the allocation has been destroyed). -/
+theorem alloc_failure_no_effect (portable : Bool) (s : St) (af : AF) (op : Op) (hop : op.growsInPlace = true)
+    {s' : St} {r : Ret} (h : stepA false portable s af op = .threw (s', r)) :
+    (∀ j, s'.regs j = s.regs j) ∧ s'.led.net = s.led.net ∧ s'.led.blocks = s.led.blocks :=
+  let ⟨h1, h2, h3, _⟩ := stepA_threw_same portable s af op hop h
+  ⟨h1, h2, h3⟩
+
+/-- EXACTLY WHEN, AND WHAT ELSE.  In a state of the invariant, for an operation std::vector accepts: the armed
+    failure strikes iff the call allocates — the required size exceeds the capacity — and the request is one the
+    allocator refuses (`allocFails`, read off sizes and capacities).  If it strikes, the call is left by the
+    exception WITHOUT a fault of the slot model, the state still represents the same lists (strong guarantee) and
+    is register for register the old one; if it does not, the call IS the unarmed one (to which `step_refines`
+    applies). -/
+theorem alloc_failure_exact (portable : Bool) {R : Nat} {s : St} {f : Nat → List Val} (hI : SInv R s f) (af : AF)
+    (op : Op) (hop : op.growsInPlace = true) (hR : ∀ r ∈ op.regs, r < R)
+    {f' : Nat → List Val} {ret : Ret} (hs : specStep f op = some (f', ret)) :
+    (allocFails s af op = true →
+      ∃ s', stepA false portable s af op = .threw (s', .throw) ∧ SInv R s' f ∧ ∀ j, s'.regs j = s.regs j) ∧
+    (allocFails s af op = false → stepA false portable s af op = .ofOption (step portable s op)) := by
+  refine ⟨fun h => ?_, fun h => stepA_not_failed portable s af op hop h⟩
+  obtain ⟨s1, h1, _⟩ := step_refines portable hI op hR hs
+  obtain ⟨s', h2⟩ := stepA_failed portable s af op hop h (by rw [h1]; rfl)
+  obtain ⟨e1, e2, e3, _⟩ := stepA_threw_same portable s af op hop h2
+  exact ⟨s', h2, hI.of_same e1 e2 e3, e1⟩
+
+/-- both regions of `alloc_failure_exact` are inhabited: a full vector refuses to grow, one with room does not
+    allocate -/
+example : allocFails ⟨fun _ => vecOf 2 [1, 2], {}⟩ (.kth 0) (.emplaceBack 0 (.val 5)) = true ∧
+    allocFails ⟨fun _ => vecOf 3 [1, 2], {}⟩ (.kth 0) (.emplaceBack 0 (.val 5)) = false ∧
+    allocFails ⟨fun _ => vecOf 2 [1, 2], {}⟩ (.above 4) (.reserve 0 4) = false ∧
+    allocFails ⟨fun _ => vecOf 2 [1, 2], {}⟩ (.above 4) (.reserve 0 5) = true := by decide
+
+/-- std::vector accepts the history whichever of the armed allocations fail: a failed operation leaves the
+    abstract state as it was, the caller goes on -/
+def AcceptsA (f : Nat → List Val) : List (Op × Option AF) → Prop
+  | [] => True
+  | (op, af) :: rest =>
+    ∃ f' ret, specStep f op = some (f', ret) ∧ AcceptsA f' rest ∧ (af.isSome = true → AcceptsA f rest)
+
+/-- HISTORIES WITH ALLOCATION FAILURES.  Any history of operations, any of the growing ones armed with an
+    allocation failure (k-th allocation of the call, or a bounded allocator), the caller catching std::bad_alloc
+    and using the vectors further: no fault anywhere and the final state is in the invariant (size <= capacity =
+    block size, exactly the slots below size constructed, ledger balanced) — … -/
+theorem alloc_failure_histories_safe (portable : Bool) {R : Nat} (ops : List (Op × Option AF))
+    (hA : ∀ p ∈ ops, p.2.isSome = true → p.1.growsInPlace = true) (hR : ∀ p ∈ ops, ∀ r ∈ p.1.regs, r < R)
+    {s : St} {f : Nat → List Val} (hI : SInv R s f) (hs : AcceptsA f ops) :
+    ∃ s' f', runA false portable s ops = some s' ∧ SInv R s' f' := by
+  induction ops generalizing s f with
+  | nil => exact ⟨s, f, rfl, hI⟩
+  | cons p rest ih =>
+    obtain ⟨op, oaf⟩ := p
+    obtain ⟨f1, ret, h1, hacc, hfail⟩ := hs
+    have hR' : ∀ r ∈ op.regs, r < R := hR (op, oaf) (by simp)
+    have ihr := fun {s : St} {f : Nat → List Val} (hI : SInv R s f) (hs : AcceptsA f rest) =>
+      ih (fun p hp => hA p (by simp [hp])) (fun p hp => hR p (by simp [hp])) hI hs
+    obtain ⟨s1, hs1, hI1⟩ := step_refines portable hI op hR' h1
+    cases oaf with
+    | none =>
+      obtain ⟨s', f', h2, hI2⟩ := ihr hI1 hacc
+      exact ⟨s', f', by simp [runA, hs1, h2], hI2⟩
+    | some af =>
+      have hop : op.growsInPlace = true := hA (op, some af) (by simp) rfl
+      obtain ⟨hyes, hno⟩ := alloc_failure_exact portable hI af op hop hR' h1
+      cases hf : allocFails s af op with
+      | true =>
+        obtain ⟨s2, h2, hI2, _⟩ := hyes hf
+        obtain ⟨s', f', h3, hI3⟩ := ihr hI2 (hfail rfl)
+        exact ⟨s', f', by simp [runA, h2, h3], hI3⟩
+      | false =>
+        obtain ⟨s', f', h3, hI3⟩ := ihr hI1 hacc
+        exact ⟨s', f', by simp [runA, hno hf, hs1, Out.ofOption, h3], hI3⟩
+
+/-- … and after the destructors every element object ever constructed has been destroyed exactly once and every
+    block freed, whichever allocations failed on the way -/
+theorem alloc_failure_no_leak (portable : Bool) (R : Nat) (ops : List (Op × Option AF))
+    (hA : ∀ p ∈ ops, p.2.isSome = true → p.1.growsInPlace = true) (hR : ∀ p ∈ ops, ∀ r ∈ p.1.regs, r < R)
+    (hs : AcceptsA (fun _ => []) ops) :
+    ∃ s' s'', runA false portable St.init ops = some s' ∧ destroyAll s' R = some s'' ∧
+      s''.led.made = s''.led.dtor ∧ s''.led.alloc = s''.led.dealloc ∧ ∀ r, r < R → s''.regs r = Vec.empty := by
+  obtain ⟨s', f', h1, hI⟩ := alloc_failure_histories_safe portable ops hA hR (SInv.init R) hs
+  obtain ⟨s'', h2, hI2, hE⟩ := destroyAll_ok hI R (Nat.le_refl _)
+  refine ⟨s', s'', h1, h2, ?_, ?_, hE⟩
+  · have hn := hI2.net
+    rw [total_zero_of _ R (by intro j hj; simp [hj])] at hn
+    simp only [Ledger.net, Ledger.made] at hn ⊢; omega
+  · have hb := hI2.blk
+    rw [total_zero_of _ R (by intro j hj; rw [hE j hj]; simp)] at hb
+    simp only [Ledger.blocks] at hb; omega
+
+/-- the hypotheses are satisfiable: push three, a reserve that is refused, push on, insert refused, resize -/
+example : AcceptsA (fun _ => []) [(.listCtor 0 [1, 2, 3], none), (.reserve 0 1001, some (.above 1000)),
+    (.emplaceBack 0 (.val 4), some (.kth 0)), (.emplace 0 1 (.own 0), some (.kth 0)), (.resize 0 9, none)] := by
+  simp [AcceptsA, specStep, argSpec, setL, insertAt]
+
+/-- WITNESS for the seeded tidy-up `oldcapacity = std::exchange(m_capacity, sz)` in front of the allocation
+    (`capFirst = true`): push three elements, a reserve the allocator refuses, one more push_back — std::vector
+    accepts the history and the code as it is runs it (incl. the destructors), the variant faults: the failed
+    reserve left m_capacity = 1001 over the 3-slot block, so push_back takes the "enough room" path and constructs
+    behind the block. -/
+theorem changeBuffer_capacity_first_witness :
+    let ops : List (Op × Option AF) :=
+      [(.listCtor 0 [1, 2, 3], none), (.reserve 0 1001, some (.above 1000)), (.emplaceBack 0 (.val 4), none)]
+    AcceptsA (fun _ => []) ops ∧
+    (runA true false St.init ops).isNone = true ∧
+    ((runA false false St.init ops).bind fun s => destroyAll s 1).isSome = true := by
+  refine ⟨by simp [AcceptsA, specStep, argSpec, setL], by decide, by decide⟩
+
+/-- the capacity the variant reports after the failed reserve is not the size of the block it owns -/
+theorem changeBuffer_capacity_first_breaks_rep :
+    changeBufferA true (.above 1000) 0 (vecOf 3 [1, 2, 3]) 1001 {} = .threw ({ vecOf 3 [1, 2, 3] with cap := 1001 }, {}) ∧
+    ¬ Rep { vecOf 3 [1, 2, 3] with cap := 1001 } [1, 2, 3] := by
+  refine ⟨rfl, ?_⟩
+  intro h
+  have := h.2
+  simp [vecOf] at this
+
+/-- COMPARISON UNDER THE ELEMENT TYPE'S OWN RELATION.  `operator==` of the code (size test, then the loop with the
+    element's `!=`) over two represented vectors runs without a fault and answers `listEqBy ne`: equal lengths and
+    the element `!=` false at every index — for ANY relation `ne` (not the negation of an equivalence, not even
+    irreflexive: a NaN differs from itself, so a vector holding one is unequal to its own copy). -/
+theorem vec_eq_is_elementwise (ne : Val → Val → Bool) {a b : Vec} {xs ys : List Val} (ha : Rep a xs) (hb : Rep b ys) :
+    vecEqBy ne a b = some (listEqBy ne xs ys) ∧
+    (listEqBy ne xs ys = true ↔ xs.length = ys.length ∧ ∀ i, i < xs.length → ne (xs.getD i 0) (ys.getD i 0) = false) :=
+  ⟨vecEqBy_ok ne ha hb, listEqBy_iff ne xs ys⟩
+
+/-- with the value inequality as element relation this is the `operator==` of `step_refines` (list equality) -/
+theorem vec_eq_by_value_is_list_eq {a b : Vec} {xs ys : List Val} (ha : Rep a xs) (hb : Rep b ys) :
+    vecEqBy (fun p q => p != q) a b = some (decide (xs = ys)) := by
+  rw [vecEqBy_ok _ ha hb, listEqBy_eq]
+
+/-- WITNESS for the seeded bytewise fast path (`memcmp` for trivially copyable T): with doubles coded 0 = +0.0,
+    1 = -0.0, 2 = NaN the element relation says [+0.0] == [-0.0] and [NaN] != [NaN]; the comparison of the
+    representations says the opposite both times -/
+theorem equality_memcmp_witness :
+    let ne : Val → Val → Bool := fun a b => a == 2 || b == 2 || (if a ≤ 1 then 0 else a - 2) != (if b ≤ 1 then 0 else b - 2)
+    vecEqBy ne (vecOf 1 [0]) (vecOf 1 [1]) = some true ∧ vecEqBytes Int.toNat (vecOf 1 [0]) (vecOf 1 [1]) = some false ∧
+    vecEqBy ne (vecOf 1 [2]) (vecOf 1 [2]) = some false ∧ vecEqBytes Int.toNat (vecOf 1 [2]) (vecOf 1 [2]) = some true := by
+  decide
 
 end Igris.C02
